@@ -21,9 +21,11 @@ def _mk():
     P = core.Plurality
     R = {}
 
-    def add(name, vtype, kind, make, family=None, scale_free=True, seats=True, max_k=None, det=True, needs=None):
+    def add(name, vtype, kind, make, family=None, scale_free=True, seats=True, max_k=None, det=True, needs=None, exact=True, min_cands=1):
+        # exact: the evaluator is meant to fill exactly n_seats (False: quota / threshold style, at most n_seats)
+        # min_cands: composite entries whose inner evaluator sees no candidate below that number (an empty pairwise dictionary)
         R[name] = dict(name=name, vtype=vtype, kind=kind, make=make, family=family, scale_free=scale_free,
-                       seats=seats, max_k=max_k, det=det, needs=needs)
+                       seats=seats, max_k=max_k, det=det, needs=needs, exact=exact, min_cands=min_cands)
     # simple votes
     add('plurality', 'simple', 'sel', lambda: P(), family='plurality')
     for d in ('d_hondt', 'sainte_lague', 'imperiali', 'danish', 'macau'):
@@ -33,7 +35,7 @@ def _mk():
     add('lr_droop', 'simple', 'dist', lambda: prop.LargestRemainder('droop'), family='largest_remainder', scale_free=False)
     add('pure_proportionality', 'simple', 'dist', lambda: prop.PureProportionality(), needs='fractional')
     add('relative_threshold', 'simple', 'sel', lambda: thr.RelativeThreshold(Fraction(1, 5)), seats=False)
-    add('quota_selector_hare', 'simple', 'sel', lambda: appr.QuotaSelector('hare', on_more_over_quota='select'))
+    add('quota_selector_hare', 'simple', 'sel', lambda: appr.QuotaSelector('hare', on_more_over_quota='select'), exact=False)
     # approval votes
     add('approval', 'approval', 'sel', lambda: core.PreConverted(conv.ApprovalToSimpleVotes(), P()), family='approval')
     add('sav', 'approval', 'sel', lambda: core.PreConverted(conv.ApprovalToSimpleVotes(split=True), P()), family='approval')
@@ -58,7 +60,7 @@ def _mk():
     for nm in cd.EVALUATORS:
         fam = {'copeland': 'copeland', 'schulze': 'schulze', 'minimax': 'minimax'}.get(nm.split('_')[0])
         add('r_' + nm, 'ranked', 'sel', (lambda nm=nm: core.PreConverted(conv.RankedToCondorcetVotes(), cd.EVALUATORS[nm])), family=fam,
-            needs=('small' if nm == 'kemeny_young' else None))
+            needs=('small' if nm == 'kemeny_young' else None), min_cands=2)
         add('p_' + nm, 'pairwise', 'sel', (lambda nm=nm: cd.EVALUATORS[nm]), family=fam, needs=('small' if nm == 'kemeny_young' else None))
     add('condorcet_winner', 'pairwise', 'sel', lambda: cd.CondorcetWinner(), seats=False)
     add('smith_set', 'pairwise', 'sel', lambda: cd.SmithSet(), seats=False)
@@ -163,6 +165,27 @@ def candidates_of(vtype, prof):
         elif vtype == 'pairwise':
             add(key[0]); add(key[1])
     return out
+
+
+def present_candidates(entry, prof):
+    """candidates the evaluator itself gets to see (first preferences only for the first-preference composite)"""
+    if entry['name'] == 'fptp_ranked':
+        out = []
+        for b, _ in prof:
+            if b and b[0] not in out:
+                out.append(b[0])
+        return out
+    if entry['name'].startswith('r_'):
+        # the pairwise evaluator behind the converter sees only candidates that took part in some pairwise contest
+        import votelib.convert as conv
+        d = conv.RankedToCondorcetVotes().convert(to_python('ranked', prof))
+        out = []
+        for a, b in d:
+            for x in (a, b):
+                if common.cnum(x) not in out:
+                    out.append(common.cnum(x))
+        return out
+    return candidates_of(entry['vtype'], prof)
 
 
 def has_shared(prof):
